@@ -1,4 +1,4 @@
 \* the same-type rule of multi-node consolidation needs two removed nodes
-CONSTANTS NTypes = 2  Prices = {1, 2}  ZMods = {"dear"}  MaxCands = 2  MinS2S = 2  Focus = "price"  Weak = "sameType"  GenMod = 1  GenRes = 0
+CONSTANTS NTypes = 2  Prices = {1, 2}  ZMods = {"dear"}  MaxCands = 2  MinS2S = 2  Focus = "price"  UnavCTs = {}  Weak = "sameType"  GenMod = 1  GenRes = 0
 SPECIFICATION Spec
 INVARIANTS WeakDetect
